@@ -6,7 +6,8 @@ PROP = {
  "bounded": [
   "hostile_xml"
  ],
- "level": "proof",
+ "level": "other",
+ "explanation": "No function is under a behavioural contract for C11: the property reduces to the external parser (E-DEFUSED) and the parsing assumptions (E-PARSE). What is decided for every input is the syntactic call-site obligation: every call in the package that can parse XML resolves to the hardened parser (an exhaustive inventory rebuilt from the working tree on every run). The behaviour of the hardened parser and of the entry points on malformed or truncated input is only exercised by the bounded hostile-document sweep (labelled bounded, never counted as proved).",
  "level_text": "syntactic call-site obligation over the whole package: every call that can parse XML resolves to the hardened parser (defusedxml); inventory rebuilt from the working tree on every run. The behaviour of the hardened parser itself is assumed (E-DEFUSED) and only validated by the bounded hostile-document sweep.",
  "assumptions": [
   "E-DEFUSED"
